@@ -195,6 +195,14 @@ pub struct Probes {
     pub keys_seen_at_write: BTreeSet<String>,
     pub os_blocked: u64,
     pub block_silent_window: u64,
+    /// lsp-sim windows: the main loop stored an edit (store new, database old) while ...
+    pub edit_stored_while_task_unstarted: u64,
+    pub edit_stored_while_task_in_query: u64,
+    /// ... and a task read the document store inside that window.
+    pub store_read_inside_update_window: u64,
+    /// A task finished its work while a later task for the same purpose was already done
+    /// (its result reaches the main loop late).
+    pub task_end_after_later_task_exit: u64,
 }
 
 pub struct St {
@@ -903,7 +911,32 @@ impl Controller for Handle {
                 st.boundary(who);
                 st.resolve_all_waiting_on(who);
             }
-            PKind::Named("vfs:read") | PKind::Named("task:end") => st.boundary(who),
+            PKind::Named("vfs:read") | PKind::Named("task:end") => {
+                st.boundary(who);
+                let main_in_window = st.threads.values().any(|t| {
+                    t.is_main
+                        && t.status == Status::Parked
+                        && matches!(&t.point, Some(p) if matches!(p.kind, PKind::Named("didchange:vfs_updated") | PKind::Named("open:vfs_updated")))
+                });
+                if info.kind == PKind::Named("vfs:read") && main_in_window {
+                    st.probes.store_read_inside_update_window += 1;
+                }
+                if info.kind == PKind::Named("task:end") && st.threads.iter().any(|(id, t)| *id > who && !t.is_main && t.status == Status::Done) {
+                    st.probes.task_end_after_later_task_exit += 1;
+                }
+            }
+            PKind::Named("didchange:vfs_updated") | PKind::Named("open:vfs_updated") => {
+                let unstarted = st.threads.values().any(|t| {
+                    t.status == Status::Parked && matches!(&t.point, Some(p) if p.kind == PKind::Named("task:start"))
+                });
+                let in_query = st.threads.values().any(|t| !t.is_main && t.in_query);
+                if unstarted {
+                    st.probes.edit_stored_while_task_unstarted += 1;
+                }
+                if in_query {
+                    st.probes.edit_stored_while_task_in_query += 1;
+                }
+            }
             PKind::ApplyBegin => {
                 if st.live_snaps > 0 {
                     if let Some(mp) = make_probe.take() {
